@@ -189,6 +189,7 @@ package stateless
 // "any configuration the loader accepts passes validation"; zero means "keep the default"
 //@ func (cfg *Config) applyJSONConfig
 //@   property C15
+//@   inline SetIfNotDefault
 //@   ensures [accepted-is-valid] err == nil ==> validCfg(cfg)
 //@   ensures [rejected-is-refused] !validCfg(cfg) ==> err != nil
 //@   ensures [max-queue] cfg.MaxPinQueueSize == ite(jcfg.MaxPinQueueSize != 0, jcfg.MaxPinQueueSize, old(cfg.MaxPinQueueSize))
